@@ -6,6 +6,7 @@
 //!  * `<area>-drive ...`: drives the implementation with seeded random histories and writes an
 //!    ndjson trace that a `*Trace.tla` specification validates (impl -> spec).
 mod maps;
+mod modedit;
 mod replay;
 mod stacks;
 mod tables;
@@ -25,6 +26,8 @@ fn main() {
         "stacks-drive" => stacks::drive(rest),
         "maps-replay" => util::run_cases(rest, maps::replay_case),
         "maps-drive" => maps::drive(rest),
+        "modedit-replay" => util::run_cases(rest, modedit::replay_case),
+        "modedit-drive" => modedit::drive(rest),
         "table-replay" => util::run_cases(rest, tables::replay_case),
         "table-drive" => tables::drive(rest),
         other => {
